@@ -205,6 +205,9 @@ async def _run(sc):
         outcome = "timeout"
     except Exception as ex:          # run() must not raise on these scenarios
         outcome = "raised:" + repr(ex)
+    except asyncio.CancelledError as ex:
+        # nobody cancelled run(): a cancellation that belongs to a job's own task escaped into the dispatch loop
+        outcome = "raised:" + repr(ex)
     finally:
         lg.setLevel(old)
     return log, outcome
